@@ -137,6 +137,11 @@ def verify_function(make_ctx, reg, qualname, timeout_ms=10000, both=False):
         for r in c["requires"]:
             _t, txt = clause_parts(r, dtags)
             run.assume(zbool(reg.eval_clause(it, txt, fr, old=None)))
+        for a_ in c.get("assume", []):
+            # heap-wide object invariants (every node of a linked structure satisfies its class invariant in the
+            # pre-state): an ASSUMPTION of the proof, not a precondition callers must establish; listed in the report
+            run.assume(zbool(reg.eval_clause(it, a_, fr, old=None)))
+            run.assumed.append("assume:%s" % a_)
         for use in c.get("use", []):
             reg.use_lemma(it, use, fr)
         run.n_assume = len(run.pc)
@@ -300,16 +305,9 @@ def region_only(run, reg, ctx, ob, kr, timeout_ms):
     finally:
         run.pc[:] = saved_pc
         del run.obligations[saved_obl:]
-    s = z3.Solver()
-    s.set("timeout", timeout_ms)
-    for f in ctx.facts:
-        s.add(f)
-    for p_ in ob.pc:
-        s.add(p_)
-    s.add(z3.Not(ob.goal))
-    s.add(z3.Not(zbool(r)))
+    s, risky = smt.lifted_solver(list(ctx.facts) + list(ob.pc) + [z3.Not(ob.goal), z3.Not(zbool(r))], timeout_ms)
     res = s.check()
-    if res == z3.unsat:
+    if res == z3.unsat and not risky:
         return True
     if res == z3.sat:
         ob.model = s.model()
